@@ -23,6 +23,9 @@ func allInstances() []*Instance {
 	}
 	_ = p
 	regC13(add, p)
+	regC14(add, p)
+	regC04(add, p)
+	regC17(add, p)
 	return all
 }
 
@@ -56,3 +59,70 @@ func propertyAssumptions(prop string, stubs map[string]bool) map[string]bool {
 
 var stubAssumptions = map[string]string{}
 var perPropertyAssumptions = map[string][]string{}
+
+func regC14(add addFn, p pFn) {
+	add(&Instance{Property: "C14", Name: "lookup-e2c2", Entry: "keytab.VH_C14_Lookup", Params: p("entries", 2, "comps", 2, "slen", 1, "klen", 1, "qlen", 0), Reach: []string{"found", "notfound"},
+		Bound: "0..2 entries, 0..2 components per entry and query, strings of 1 symbolic byte, keys 0..1 bytes, kvno full 32-bit, etype full int32, timestamps full signed 32-bit"})
+	add(&Instance{Property: "C14", Name: "lookup-e3c2", Entry: "keytab.VH_C14_Lookup", Params: p("entries", 3, "comps", 2, "slen", 2, "klen", 2, "qlen", 0), Tier: "thorough", Reach: []string{"found", "notfound"}, TimeoutS: 1500,
+		Bound: "0..3 entries, 0..2 components, strings of 2 symbolic bytes, keys 0..2 bytes"})
+	add(&Instance{Property: "C14", Name: "lookup-varlen", Entry: "keytab.VH_C14_Lookup", Params: p("entries", 1, "comps", 2, "slen", 1, "klen", 1, "qlen", 3), Reach: []string{"found", "notfound"},
+		Bound: "0..1 entries, 0..2 components; entry component strings of every length 0..1, query component strings of every length 0..3 (empty components, separators inside components)"})
+	add(&Instance{Property: "C14", Name: "lookup-varlen-e2", Entry: "keytab.VH_C14_Lookup", Params: p("entries", 2, "comps", 2, "slen", 2, "klen", 1, "qlen", 5), Tier: "thorough", Reach: []string{"found", "notfound"}, TimeoutS: 1500,
+		Bound: "0..2 entries, 0..2 components; entry strings 0..2 bytes, query strings 0..5 bytes"})
+	for _, v := range []int{1, 2} {
+		add(&Instance{Property: "C14", Name: "roundtrip-v" + itoa(v), Entry: "keytab.VH_C14_RoundTrip", Params: p("version", v, "entries", 2, "comps", 2, "slen", 1, "klen", 2), Reach: []string{"compared"},
+			Bound: "2 entries, 0..2 components, 1-byte strings, 2-byte keys, all integer fields full range"})
+		add(&Instance{Property: "C14", Name: "roundtrip-big-v" + itoa(v), Entry: "keytab.VH_C14_RoundTrip", Params: p("version", v, "entries", 3, "comps", 3, "slen", 2, "klen", 4), Tier: "thorough", Reach: []string{"compared"},
+			Bound: "3 entries, 0..3 components, 2-byte strings, 4-byte keys"})
+		add(&Instance{Property: "C14", Name: "writer-v" + itoa(v), Entry: "keytab.VH_C14_IndependentWriter", Params: p("version", v, "entries", 2, "comps", 2, "slen", 1, "klen", 2, "hole", 2), Reach: []string{"compared"},
+			Bound: "2 entries each optionally preceded by a hole of 0..2 arbitrary bytes, with/without the 32-bit kvno, 0..2 components"})
+		add(&Instance{Property: "C14", Name: "writer-big-v" + itoa(v), Entry: "keytab.VH_C14_IndependentWriter", Params: p("version", v, "entries", 3, "comps", 2, "slen", 2, "klen", 3, "hole", 5), Tier: "thorough", Reach: []string{"compared"}, TimeoutS: 1200,
+			Bound: "3 entries, holes 0..5 bytes"})
+	}
+}
+
+func regC04(add addFn, p pFn) {
+	// keytab
+	add(&Instance{Property: "C04", Name: "keytab-short", Entry: "keytab.VH_C04_UnmarshalShort", Reach: []string{"returned"}, Bound: "every input of 0..3 bytes"})
+	for _, n := range []int{8, 12, 14} {
+		add(&Instance{Property: "C04", Name: "keytab-n" + itoa(n), Entry: "keytab.VH_C04_Unmarshal", Params: p("n", n), Reach: []string{"returned"}, Unwind: n + 8,
+			Bound: "every input of exactly n bytes starting 05 01|02 (other first bytes are rejected before any parsing; see keytab-short)"})
+	}
+	for _, n := range []int{18, 22} {
+		add(&Instance{Property: "C04", Name: "keytab-n" + itoa(n), Entry: "keytab.VH_C04_Unmarshal", Params: p("n", n), Tier: "thorough", Reach: []string{"returned"}, Unwind: n + 8, TimeoutS: 1500,
+			Bound: "every input of exactly n bytes starting 05 01|02"})
+	}
+	// ccache
+	add(&Instance{Property: "C04", Name: "ccache-short", Entry: "credentials.VH_C04_CCacheUnmarshal", Params: p("n", 1, "version", 0), Bound: "every input of 1 byte"})
+	add(&Instance{Property: "C04", Name: "ccache-empty", Entry: "credentials.VH_C04_CCacheUnmarshal", Params: p("n", 0, "version", 0), Bound: "the empty input"})
+	for v := 1; v <= 4; v++ {
+		add(&Instance{Property: "C04", Name: "ccache-v" + itoa(v) + "-n12", Entry: "credentials.VH_C04_CCacheUnmarshal", Params: p("n", 12, "version", v), Bound: "every input of 12 bytes of format version v"})
+		add(&Instance{Property: "C04", Name: "ccache-v" + itoa(v) + "-n20", Entry: "credentials.VH_C04_CCacheUnmarshal", Params: p("n", 20, "version", v), Tier: "thorough", TimeoutS: 1200, Bound: "every input of 20 bytes of format version v"})
+	}
+}
+
+func regC17(add addFn, p pFn) {
+	for _, n := range []int{0, 15, 16, 17, 20, 28, 40} {
+		tier := "quick"
+		if n == 40 {
+			tier = "thorough"
+		}
+		reach := []string{"accepted", "rejected"}
+		if n < 16 {
+			reach = []string{"short"}
+		}
+		add(&Instance{Property: "C17", Name: "wrap-unmarshal-n" + itoa(n), Entry: "gssapi.VH_C17_WrapUnmarshal", Params: p("n", n), Tier: tier, Reach: reach, Bound: "every token of exactly n bytes, both expected directions"})
+		add(&Instance{Property: "C17", Name: "mic-unmarshal-n" + itoa(n), Entry: "gssapi.VH_C17_MICUnmarshal", Params: p("n", n), Tier: tier, Reach: reach, Bound: "every token of exactly n bytes, both expected directions"})
+	}
+	for _, pc := range [][2]int{{0, 0}, {1, 12}, {17, 12}, {5, 16}, {64, 24}, {300, 24}} {
+		tier := "quick"
+		if pc[0] >= 64 {
+			tier = "thorough"
+		}
+		add(&Instance{Property: "C17", Name: "wrap-marshal-p" + itoa(pc[0]) + "-c" + itoa(pc[1]), Entry: "gssapi.VH_C17_WrapMarshal", Params: p("payload", pc[0], "cksum", pc[1]), Tier: tier, Reach: []string{"done"},
+			Bound: "payload and checksum of the given lengths with symbolic contents; flags, RRC, 64-bit sequence number symbolic; EC = checksum length"})
+	}
+	for _, c := range []int{0, 12, 16, 24} {
+		add(&Instance{Property: "C17", Name: "mic-marshal-c" + itoa(c), Entry: "gssapi.VH_C17_MICMarshal", Params: p("cksum", c), Reach: []string{"done"}, Bound: "checksum of the given length, symbolic flags and sequence number"})
+	}
+}
